@@ -33,7 +33,8 @@ Observe == /\ l = 1
            /\ Require(T.positive \/ NearOptimal, T.id, "MinimisesPinballLoss", l,
                       [loss |-> LossHat, opt_num |-> OptNum, opt_den |-> OptDen, theta |-> <<T.s, T.c>>])
            /\ Require(ScoreOK(T.score), T.id, "ScoreIsTwiceMeanLoss", l, [score |-> T.score, twice_loss |-> 2 * LossHat, weight |-> TotalW])
-           /\ Require(T.score <= T.score_other + 2, T.id, "BetterFitNeverScoresWorse", l, [own |-> T.score, other |-> T.score_other])
+           \* (a fit stopped after one or two IRLS passes is not "the better q-fit": only full fits are compared)
+           /\ Require(~T.full \/ T.score <= T.score_other + 2, T.id, "BetterFitNeverScoresWorse", l, [own |-> T.score, other |-> T.score_other])
            \* "about a fraction q lies below": the LP optimality condition needs an intercept; two units of slack for a
            \* fit that is within the IRLS tolerance of the optimum but not at a vertex
            /\ Require(T.positive \/ ~T.fit_intercept \/ ((BelowHat - 2) * q[2] <= q[1] * TotalW /\ q[1] * TotalW <= (BelowHat + NearHat + 2) * q[2]), T.id,
